@@ -90,6 +90,9 @@ def programs(tier, seed):
         yield (f"nested-bound-falsy-{fi}", T.prog([T.gnode("inr", inner_f), T.fn("oc", ["z", "q"], ["w0"])]), e, True)
         mid_f = T.prog([T.gnode("inr", inner_f, rename_in={"m": "mm"})], name="mid")
         yield (f"nested2-bound-falsy-{fi}", T.prog([T.gnode("mid", mid_f), T.fn("oc", ["z", "q"], ["w0"])]), e, True)
+    # an inner binding whose name is also consumed by a plain node of the parent graph (the inner value surfaces outside)
+    shared = T.prog([T.fn("srch", ["query", "model"], ["hits"])], name="retr", bind={"model": ["bound", "model"]})
+    yield ("nested-shared-bound-name", T.prog([T.gnode("retr", shared), T.fn("summ", ["hits"], ["summary"]), T.fn("bann", ["title", "model"], ["banner"])]), e, True)
     # a wrapper whose renames re-use a name freed by an earlier rename: exposed 'a' is the UNBOUND inner 'b', while the inner
     # graph's own (bound) 'a' is exposed as 'cfg' - chained calls and the single-call form
     for form, kw in (("chain", {"rename_in_chain": [{"a": "cfg"}, {"b": "a"}]}), ("batch", {"rename_in": {"a": "cfg", "b": "a"}}), ("chain-default", {"rename_in_chain": [{"d": "tmp"}, {"b": "d"}]})):
@@ -170,7 +173,12 @@ def check_config(acc, family, prog, ints, is_dag, cfg, runner):
         acc.violation({"symptom": sym, "family": family.split("-")[0], **extra}, w, f"{family} {cfg}: {msg}", size=len(repr(prog)) + len(repr(cfg)))
 
     def prerun(gg):
-        """Use the parent object first (same run-time select): nothing computed for it may survive into a derived graph."""
+        """Use the parent object first (its spec is read; with a run-time select it is also run): nothing computed for it may
+        survive into a derived graph."""
+        try:
+            gg.inputs
+        except Exception:  # noqa: BLE001
+            pass
         if not cfg["rsel"]:
             return
         try:
@@ -199,6 +207,22 @@ def check_config(acc, family, prog, ints, is_dag, cfg, runner):
         acc.counters["configuration_rejected"] += 1
         return
     acc.evaluations += 1
+    # history independence: the same configuration derived from never-used objects reports the same spec
+    try:
+        gf = build(p, H())
+        if cfg["bind"]:
+            gf = gf.bind(**{k: canon(_val(k, ints)) for k in cfg["bind"]})
+        if cfg["entry"]:
+            gf = gf.with_entrypoint(*cfg["entry"])
+        if cfg["select"]:
+            gf = gf.select(*cfg["select"])
+        if cfg["rsel"]:
+            gf = gf.select(*cfg["rsel"])
+        fresh_view = _spec_view(gf.inputs)
+    except Exception:  # noqa: BLE001
+        fresh_view = None
+    if fresh_view is not None and fresh_view != _spec_view(spec):
+        viol("spec-depends-on-history", f"derived after the parent objects were used, the spec is {_spec_view(spec)}; derived from never-used objects it is {fresh_view}")
     req, opt = set(spec.required), set(spec.optional)
     eps = {k: set(v) for k, v in spec.entrypoints.items()}
     epp = set().union(*eps.values()) if eps else set()
@@ -346,5 +370,5 @@ def replay(rep):
     cfg = {k: (tuple(v) if isinstance(v, list) else v) for k, v in rep["cfg"].items()}
     ints = {"count": 0, "x0": 0, "x1": 0, "x2": 0, "total": 100, "s": 0, "a": 0, "u": 1, "lim": 3, "xa": 0, "yb": 0, "zb": 0}
     fam = rep["family"]
-    check_config(acc, fam, rep["program"], ints if fam.startswith("loop") else {}, fam in ("dag", "nested", "nested2", "nested-bound-default", "signals", "shared-input-order") or fam.startswith(("nested-bound-falsy", "nested2-bound-falsy")), cfg, rep["runner"])
+    check_config(acc, fam, rep["program"], ints if fam.startswith("loop") else {}, fam in ("dag", "nested", "nested2", "nested-bound-default", "nested-shared-bound-name", "signals", "shared-input-order") or fam.startswith(("nested-bound-falsy", "nested2-bound-falsy")), cfg, rep["runner"])
     return [v["message"] for v in acc.violations.values()]
